@@ -691,10 +691,23 @@ def tool_level(ctx, shim):
     prepare_interpolate_inputs(bins, base)
     specs = tool_specs(bins, base)
     cap = ctx.pick(12, 10 ** 9)
-    errs_for = (lambda sc: [INJ_ERR[sc]]) if ctx.quick else (lambda sc: sorted({INJ_ERR[sc], "EIO", "ENOSPC", "ENOMEM"}))
+    DOMAIN = ["ENOSPC", "EIO", "ENOMEM"]          # the property's errno domain, for every kind of call
+
+    def errnos_for(sc, chosen):
+        """{k: [errnos]}.  thorough: the whole domain at every point.  quick: every sync / resize point (few, and each is a barrier)
+        gets the whole domain; for the other kinds the domain is rotated over the chosen points, starting with the errno that is
+        typical for the call, so that each errno meets each kind of call of each tool at least once per run"""
+        if not ctx.quick or sc in ("msync", "fsync", "fdatasync", "ftruncate"):
+            return {k: list(DOMAIN) for k in chosen}
+        start = DOMAIN.index(INJ_ERR[sc])
+        out = {k: [DOMAIN[(start + i) % 3]] for i, k in enumerate(chosen)}
+        if chosen and len(chosen) < 3:
+            out[chosen[0]] = [DOMAIN[(start + j) % 3] for j in range(3) if j == 0 or j >= len(chosen)]
+        return out
     jobs = []
     baselines = {}
     base_wall = {}
+    errno_cover = {}
     stats = {"runs": 0, "nonzero": 0, "exit0_identical": 0, "signal": 0, "timeouts": 0, "complete_identical_after_failure": 0,
              "per_tool": {}, "injection_points_total": {}, "merge_refill_fault_points": {}}
     for t in specs:
@@ -719,21 +732,25 @@ def tool_level(ctx, shim):
         for sc in TRACED:
             if ctx.quick and t.focus and sc not in t.focus:
                 continue
-            for k in choose_ks(ks[sc], cap, ctx.rng, must=refill["per_thread"] if sc == "pread64" else ()):
+            chosen = choose_ks(ks[sc], cap, ctx.rng, must=refill["per_thread"] if sc == "pread64" else ())
+            for k, errs in errnos_for(sc, chosen).items():
                 if sc == "pread64" and k in refill["per_thread"]:
                     nref["injected"] += 1
-                for err in errs_for(sc):
+                for err in errs:
                     jobs.append((t, "inject", sc, k, err))
+                    errno_cover.setdefault(sc, set()).add(err)
         # single faults counted process-wide through the shim (strace counts per thread): the tools that run threads
         if os.path.basename(t.argv[0]) in ("lmplz", "interpolate", "filter"):
             for sc, call in SHIM_CALLS.items():
                 if ctx.quick and t.focus and sc not in t.focus:
                     continue
                 n = wide.get(sc, 0)
-                for k in choose_ks(list(range(1, n + 1)), ctx.pick(8, 10 ** 9), ctx.rng, must=refill["wide"] if sc == "pread64" else ()):
+                chosen = choose_ks(list(range(1, n + 1)), ctx.pick(8, 10 ** 9), ctx.rng, must=refill["wide"] if sc == "pread64" else ())
+                for k, errs in errnos_for(sc, chosen).items():
                     if sc == "pread64" and k in refill["wide"]:
                         nref["injected"] += 1
-                    jobs.append((t, "shimfail", call, k, str(ERRNO[INJ_ERR[sc]])))
+                    for err in (errs if ctx.quick else errs[:1]):
+                        jobs.append((t, "shimfail", call, k, str(ERRNO[err])))
         if nref["points_per_thread"]:
             stats["merge_refill_fault_points"][t.name] = nref
         # the first read() on every descriptor returns only n bytes (a pipe whose writer has sent little so far): n below, at and
@@ -794,6 +811,7 @@ def tool_level(ctx, shim):
         groups.setdefault((j[0].name, j[1], j[2], j[3]) if j[1] in ("inject", "shimfail") else (j[0].name, j[1], j[2], j[3], j[4]), []).append(j)
     groups = list(groups.values())
     stats["skipped_errnos_after_hang"] = 0
+    stats["errnos_injected_per_call_kind"] = {sc: sorted(v) for sc, v in errno_cover.items()}
     ctx.rng.shuffle(groups)      # spread the slow (hanging) runs over the workers
     results = []
     with concurrent.futures.ThreadPoolExecutor(max_workers=min(8, vlib.NPROC)) as ex:
